@@ -1360,12 +1360,13 @@ def main(tier, seed, replay=None):
            ['MC_TocFetch_thorough.cfg', 'MC_TocFetch_boundary.cfg', 'MC_TocFetch_deep.cfg']
     bugs = ('offbyone', 'acceptany', 'earlydone', 'accessmask', 'trunc8',
             'accepthigher', 'resetguard', 'versionrestarts', 'oldcache')
-    gcfg = 'MC_TocFetch_quick.cfg' if quick else 'MC_TocFetch_thorough.cfg'
+    gcfg = 'MC_TocFetch_quick.cfg' if quick else 'MC_TocFetch_tour.cfg'
     nsim = 150 if quick else 1000
     w = max(2, common.NCPU // 4)
     with ThreadPoolExecutor(max_workers=8) as ex:
+        chk = cfgs[1:] if quick else cfgs
         f_chk = [ex.submit(tlc.check, 'MC_TocFetch.tla', cfg, coverage=(not quick and 'boundary' not in cfg),
-                           timeout=3000, workers=(w if 'boundary' in cfg else 2), heap='3g') for cfg in cfgs[1:]]
+                           timeout=3000, workers=(w if 'boundary' in cfg else 2), heap='3g') for cfg in chk]
         f_bug = [ex.submit(tlc.expect_violation, 'MC_TocFetch.tla', 'MC_TocFetch_bug_%s.cfg' % bug, timeout=900, workers=2, heap='2g')
                  for bug in bugs]
         f_dump = ex.submit(tlc.dump_graph, 'MC_TocFetch.tla', gcfg, timeout=3000, workers=1, coverage=not quick, heap='3g')
@@ -1373,7 +1374,7 @@ def main(tier, seed, replay=None):
                           seed=seed % 100000, timeout=1800, heap='3g')
         rg, g = f_dump.result()
         out.add_tlc(gcfg + ' (exhaustive, graph dumped)', rg)       # the dump run is the exhaustive check of gcfg
-        for cfg, f in zip(cfgs[1:], f_chk):
+        for cfg, f in zip(chk, f_chk):
             out.add_tlc(cfg, f.result())
         for bug, f in zip(bugs, f_bug):
             rb = f.result()
